@@ -332,7 +332,18 @@ def rule_predicates(fx, rep):
             rep.fail('EXP', '%s:r-torsion:anchor' % g, 'in_subgroup calls no helper that multiplies the point (r-torsion test)')
             continue
         rep.fn(p2)
-        I2 = exp.Interp(fx, 'add', inline=lambda q: q.endswith('PrimeField>::char'))
+        mb_role = roles.roles(fx)[g].get('mul_bits')
+
+        def tr_mb(I, fr, t, c, pth):
+            # the bit-loop multiplier (decided for all scalars by C02): [k]P for the constant bit string it is given
+            if mb_role and c.get('res') == mb_role and len(t['args']) == 2:
+                v = fr.deref_operand(t['args'][0])
+                bits = fr.operand(t['args'][1])
+                if isinstance(v, Lin) and isinstance(bits, exp.Bits) and bits.v is not None:
+                    fr.storev(t['dest'], v.scale(bits.v))
+                    return True
+            return False
+        I2 = exp.Interp(fx, 'add', inline=lambda q: q.endswith('PrimeField>::char'), extra_transfer=tr_mb)
         try:
             res2 = I2.run(p2, [('byref', Lin.atom('P'))])
             ok = len(res2) == 1
